@@ -9,6 +9,8 @@ use vkit::refmath as rf;
 use vkit::vk::{self, MatN};
 use vkit::*;
 
+mod regime;
+
 struct Setup<S> {
     mv: [[S; 4]; 4],
     proj: [[S; 4]; 4],
@@ -197,6 +199,7 @@ pub fn property() -> Property {
     tape!("picking-rat", b, 48, 40_000, 800_000, picking::<Rat>);
     tape!("picking-f64", b, 64, 40_000, 800_000, picking::<f64>);
     tape!("picking-f32", b, 64, 20_000, 400_000, picking::<f32>);
+    regime::add(&mut checks);
     Property {
         id: "C10",
         rule: "model-view/projection pairs: structured (rational rigid transform x perspective/orthographic/frustum) and arbitrary invertible matrices with small rational (floats: integer) entries, singular products discarded; viewports at arbitrary offsets with w != h, sometimes negative height; points with clip w != 0; picking centres inside and outside the viewport, anisotropic sizes; non-trivial = viewport offset != 0 and w != h and clip w != 1 / centre != viewport centre; distinct = distinct consumed tape prefix",
